@@ -146,11 +146,8 @@ static ld check_exp(const ExpCase& c, CaseInfo& ci, Mat* Xout, Mat* Eout) {
   return tol;
 }
 
-static void run_case_body(ByteSource& s, CaseInfo& ci);
-// the call history on the thread is part of the input of this property: every case runs on a thread of its own, so the
-// history is exactly the one decoded from the bytes (and a shrunk failure reproduces in a fresh process)
-void run_case(ByteSource& s, CaseInfo& ci) { in_fresh_thread([&] { run_case_body(s, ci); }); }
-static void run_case_body(ByteSource& s, CaseInfo& ci) {
+// (cases run on a fresh thread: harness.h default) - the per-thread scratch and, for C07, the call history start from scratch
+void run_case(ByteSource& s, CaseInfo& ci) {
   unsigned sub = s.choose(4);
   if (sub == 3) {  // UTransform(V, i s)
     int d = gen_dim(s);
